@@ -110,6 +110,8 @@ pub trait Queue: Sized + Clone {
     fn into_sorted_iter(self) -> Self::Sorted;
     fn sorted_back(it: &mut Self::Sorted) -> Option<Option<(Key, Prio)>>;
     fn sorted_len(it: &Self::Sorted) -> (Option<usize>, (usize, Option<usize>));
+    /// std adaptor composition applied to the real iter_mut type
+    fn iter_mut_adapt(&mut self, comp: crate::case::Comp, a: usize, b: usize) -> Option<crate::ops_iter::AdaptOut>;
     /// std adaptor composition applied to the real sorted iterator type
     fn sorted_adapt(self, comp: crate::case::Comp, a: usize, b: usize) -> Option<crate::ops_iter::AdaptOut>;
     /// PQ: into_sorted_vec; DPQ: into_descending_sorted_vec
@@ -133,6 +135,9 @@ pub trait Queue: Sized + Clone {
     fn to_value(&self) -> Result<serde_json::Value, String>;
     #[cfg(feature = "std")]
     fn from_value(v: serde_json::Value) -> Result<Self, String>;
+    /// serde's in-place entry point (`Deserialize::deserialize_in_place`) on JSON text
+    #[cfg(feature = "std")]
+    fn from_json_in_place(dst: &mut Self, s: &str) -> Result<(), String>;
     /// through serde's `SeqDeserializer` over a Vec (exact size hint, not self describing)
     #[cfg(feature = "std")]
     fn from_pairs(v: Vec<((u32, u32), i64)>) -> Result<Self, String>;
@@ -295,6 +300,12 @@ macro_rules! common_methods {
             serde_json::from_str(s).map_err(|e| e.to_string())
         }
         #[cfg(feature = "std")]
+        fn from_json_in_place(dst: &mut Self, s: &str) -> Result<(), String> {
+            let mut de = serde_json::Deserializer::from_str(s);
+            serde::Deserialize::deserialize_in_place(&mut de, dst).map_err(|e| e.to_string())?;
+            de.end().map_err(|e| e.to_string())
+        }
+        #[cfg(feature = "std")]
         fn to_value(&self) -> Result<serde_json::Value, String> {
             serde_json::to_value(self).map_err(|e| e.to_string())
         }
@@ -405,6 +416,9 @@ macro_rules! impl_pq {
             fn sorted_adapt(self, comp: crate::case::Comp, a: usize, b: usize) -> Option<crate::ops_iter::AdaptOut> {
                 crate::ops_iter::adapt_plain(self.into_sorted_iter(), elem_owned, comp, a, b)
             }
+            fn iter_mut_adapt(&mut self, comp: crate::case::Comp, a: usize, b: usize) -> Option<crate::ops_iter::AdaptOut> {
+                crate::ops_iter::adapt_plain(self.iter_mut(), |(k, p): (&mut Key, &mut Prio)| (k.id, k.tag, p.v), comp, a, b)
+            }
             fn into_desc_vec(self) -> Vec<Key> {
                 self.into_sorted_vec()
             }
@@ -471,6 +485,9 @@ macro_rules! impl_dpq {
             }
             fn sorted_adapt(self, comp: crate::case::Comp, a: usize, b: usize) -> Option<crate::ops_iter::AdaptOut> {
                 Some(crate::ops_iter::adapt_full(self.into_sorted_iter(), elem_owned, comp, a, b))
+            }
+            fn iter_mut_adapt(&mut self, comp: crate::case::Comp, a: usize, b: usize) -> Option<crate::ops_iter::AdaptOut> {
+                Some(crate::ops_iter::adapt_full(self.iter_mut(), |(k, p): (&mut Key, &mut Prio)| (k.id, k.tag, p.v), comp, a, b))
             }
             fn into_desc_vec(self) -> Vec<Key> {
                 self.into_descending_sorted_vec()
